@@ -41,6 +41,27 @@ def fill_script(L, rng, dgram, name):
             "probe": True, "probe_c": L + 2, "grace_ms": 600 if dgram else 1500}
 
 
+def wrap_fill_script(L, rng, dgram, name):
+    """wire-id wrap with a query outstanding, then fill: caller 0 stays unanswered while 65535 unrecorded helper
+    exchanges take the 16-bit id counter once around (Bulk event); then the connection is filled with every Write
+    held: exactly L - 1 further queries may be admitted (their ids must skip the outstanding one), the next is
+    refused; afterwards everything is answered and the quiescent connection is probed."""
+    st = [{"a": "ArmIdle"}, {"a": "Reserve", "c": 0, "o": "ok"}, {"a": "Start", "c": 0}, {"a": "Write", "c": 0},
+          {"a": "ArmWaiting", "c": 0}, {"a": "Bulk", "cnt": 65535}]
+    for c in range(1, L):
+        st += [{"a": "Reserve", "c": c, "o": "ok"}, {"a": "Start", "c": c}, {"a": "Write", "c": c}]
+    st += [{"a": "Reserve", "c": L, "o": "full"}, {"a": "Reserve", "c": L, "o": "full"}]
+    order = list(range(L))
+    rng.shuffle(order)
+    for c in order:
+        if c != 0:
+            st += [{"a": "ArmWaiting", "c": c}]
+        st += [{"a": "ReadMsg", "c": c, "g": 0, "n": 0}, {"a": "Dispatch"}, {"a": "ArmIdle"}, {"a": "Return", "c": c},
+               {"a": "Reserve", "c": L + 1, "o": "ok"}, {"a": "Withdraw", "c": L + 1}]
+    return {"name": name, "maxCq": L, "dgram": dgram, "qid0": 0, "idpolicy": "random", "steps": st,
+            "probe": True, "probe_c": L + 2, "grace_ms": 600 if dgram else 1500}
+
+
 def run(ctx):
     T = ctx.thorough()
     if ctx.replay:
@@ -92,6 +113,10 @@ def run(ctx):
         for L in (1, 2, 4):
             scripts.append(fill_script(L, rng, dgram=(k % 2 == 1), name="fill%d.%d" % (L, k)))
             meta.append({"beh": None, "refusal": True})
+    for k in range(6 if T else 2):
+        L = (2, 2, 3, 4)[k % 4]
+        scripts.append(wrap_fill_script(L, rng, dgram=False, name="wrapfill%d.%d" % (L, k)))  # stream only: a UDP query outstanding > 1 s resends
+        meta.append({"beh": None, "refusal": True})
     nrand = 500 if T else 60
     for i in range(nrand):
         L = rng.choice([1, 1, 2, 2, 3])
